@@ -27,11 +27,13 @@ type Sched struct {
 	Switches int
 	// monitors
 	owner   map[any]int // pooled object -> thread that holds it
+	lastRel map[any]int // pooled object -> thread that released it last
+	Handovers int       // Gets that returned an object last released by another thread
 	MonErr  string
 }
 
 func NewSched(x *mc.X, n int) *Sched {
-	s := &Sched{x: x, n: n, done: make([]bool, n), resume: make([]chan struct{}, n), allDone: make(chan struct{}), owner: map[any]int{}}
+	s := &Sched{x: x, n: n, done: make([]bool, n), resume: make([]chan struct{}, n), allDone: make(chan struct{}), owner: map[any]int{}, lastRel: map[any]int{}}
 	for i := range s.resume {
 		s.resume[i] = make(chan struct{}, 1)
 	}
@@ -131,6 +133,9 @@ func (s *Sched) InstallHooks() {
 				s.MonErr = fmt.Sprintf("pool %s hands an object to thread %d while thread %d still holds it (released twice)", PoolName(p), s.cur, who)
 			}
 			s.owner[obj] = s.cur
+			if who, ok := s.lastRel[obj]; ok && who != s.cur {
+				s.Handovers++
+			}
 		}
 		return idx
 	}
@@ -145,5 +150,6 @@ func (s *Sched) InstallHooks() {
 			s.MonErr = fmt.Sprintf("an object is in the free list of pool %s twice (double release by thread %d)", PoolName(p), s.cur)
 		}
 		delete(s.owner, x)
+		s.lastRel[x] = s.cur
 	}
 }
